@@ -152,6 +152,8 @@ type rmHist struct {
 	Reopen  int `json:",omitempty"` // 1 = the store is reopened before every commit, 2 = reopened with lazy loading, 3 = older versions loaded on a copy before every commit, 4 = reopened, pruning options set after loading
 	// SkipSettings: the settings-change phase of C12 is not run for this history
 	SkipSettings bool `json:",omitempty"`
+	// Dedicated: bit i set = substore i is mounted on its own database (C12 dedicated-database pass)
+	Dedicated int `json:",omitempty"`
 }
 
 func (h rmHist) String() string {
@@ -159,6 +161,9 @@ func (h rmHist) String() string {
 	fmt.Fprintf(&b, "N=%d pruning=(%d,%d)", h.N, h.Pruning[0], h.Pruning[1])
 	if h.Names == 1 {
 		b.WriteString(" stores=acc,accounts,a")
+	}
+	if h.Dedicated != 0 {
+		fmt.Fprintf(&b, " own-database-mask=%b", h.Dedicated)
 	}
 	switch h.Reopen {
 	case 1, 2:
